@@ -39,17 +39,21 @@ VARIABLES ip,       \* ip[t]: next visit
           bp,       \* active breakpoints
           ncmd,     \* client commands issued
           susp,     \* history: <<t, line>> of suspensions (gate reached)
+          owed,     \* owed[t]: a continue command was addressed to t while it was suspended (at the gate or waiting) and t has not gone on yet
           missed,   \* history: <<t, line>> where a thread arrived from another line at an active breakpoint and did not suspend
           hist      \* the actions taken with the projection of the state they lead to (only if RecordHist)
 
-vars == <<ip, pc, is, depth, bp, ncmd, susp, missed, hist>>
+vars == <<ip, pc, is, depth, bp, ncmd, susp, owed, missed, hist>>
+
+\* the state without the history variables: with it as VIEW a behaviour can be recorded without blowing up the search
+view == <<ip, pc, is, depth, bp, ncmd, owed, missed>>
 
 None == [on |-> FALSE, cmd |-> "Stop", running |-> TRUE, line |-> 0, sos |-> 0, fresh |-> FALSE, err |-> FALSE]
 ContTypes == {"Resume", "StepIn", "StepOver", "StepOut"}
 
 Init ==
   /\ ip = [t \in Threads |-> 1] /\ pc = [t \in Threads |-> "run"] /\ is = [t \in Threads |-> None]
-  /\ depth = [t \in Threads |-> 0] /\ bp \in SUBSET Lines /\ ncmd = 0 /\ susp = <<>> /\ missed = {}
+  /\ depth = [t \in Threads |-> 0] /\ bp \in SUBSET Lines /\ ncmd = 0 /\ susp = <<>> /\ missed = {} /\ owed = [t \in Threads |-> FALSE]
   /\ hist = IF RecordHist THEN <<[a |-> "Init", t |-> 0, arg |-> "", bp |-> bp]>> ELSE <<>>
 
 Cur(t) == Prog[t][ip[t]]
@@ -115,8 +119,7 @@ StepOut(t) ==
   /\ Advance(t)
 
 \* VisitStepOutState with an error (break on error is on): the first frame the error leaves suspends the thread -
-\* registered as suspended before the gate; while the error passes further frames the thread is marked as not
-\* running without waiting (the status then shows a running thread as suspended: kept as the code does it)
+\* registered as suspended before the gate
 StepOutErr(t) ==
   /\ pc[t] = "run" /\ Cur(t).k = "outerr" /\ UNCHANGED <<bp, ncmd, missed>>
   /\ depth' = [depth EXCEPT ![t] = @ - 1]
@@ -128,7 +131,9 @@ StepOutErr(t) ==
      ELSE IF ~s.err
      THEN /\ pc' = [pc EXCEPT ![t] = "gate"] /\ is' = [is EXCEPT ![t] = [s EXCEPT !.line = l, !.running = FALSE, !.fresh = TRUE, !.err = TRUE]]
           /\ susp' = Append(susp, <<t, l>>) /\ UNCHANGED ip
-     ELSE /\ is' = [is EXCEPT ![t] = [s EXCEPT !.line = l, !.running = FALSE]]
+     ELSE \* the error passes a further frame: the pinned code (and variant "bogus") marks the thread as not running
+          \* although it does not wait - a continue command addressed to it then is consumed by the next real suspension
+          /\ is' = [is EXCEPT ![t] = IF Variant \in {"found", "bogus"} THEN [s EXCEPT !.line = l, !.running = FALSE] ELSE s]
           /\ Advance(t) /\ UNCHANGED susp
 
 \* from the gate into the wait
@@ -138,8 +143,13 @@ Park(t) ==
      THEN pc' = [pc EXCEPT ![t] = "waiting"] /\ is' = [is EXCEPT ![t].fresh = FALSE]          \* waits whatever the flag says
      ELSE IF is[t].fresh
           THEN \* registered as suspended at the breakpoint: waits unless it has been continued already
-               /\ pc' = [pc EXCEPT ![t] = IF is[t].running THEN "resumed" ELSE "waiting"]
-               /\ is' = [is EXCEPT ![t].fresh = FALSE]
+               \* (variant "reclear": a helper clears the flag once more under the lock - a continue which came in
+               \* between is consumed and the thread waits all the same)
+               IF Variant = "reclear"
+               THEN /\ pc' = [pc EXCEPT ![t] = "waiting"]
+                    /\ is' = [is EXCEPT ![t] = [is[t] EXCEPT !.fresh = FALSE, !.running = FALSE]]
+               ELSE /\ pc' = [pc EXCEPT ![t] = IF is[t].running THEN "resumed" ELSE "waiting"]
+                    /\ is' = [is EXCEPT ![t].fresh = FALSE]
           ELSE \* stepping: the flag is cleared under the lock of the condition, then the thread waits
                /\ pc' = [pc EXCEPT ![t] = "waiting"]
                /\ is' = [is EXCEPT ![t].running = FALSE]
@@ -169,6 +179,9 @@ RmBreak(l) == ncmd < MaxCmds /\ ncmd' = ncmd + 1 /\ l \in bp /\ bp' = bp \ {l} /
 \* an action together with its entry in the history: what the harness has to do and what it must then observe
 Act(name, t, arg, A) ==
   /\ A
+  /\ owed' = [x \in Threads |-> IF name = "Continue" /\ x = t /\ pc[t] \in {"gate", "waiting"} THEN TRUE
+                                  ELSE IF pc'[x] \in {"run", "resumed", "done", "killed"} THEN FALSE
+                                  ELSE owed[x]]
   /\ hist' = IF RecordHist
              THEN Append(hist, [a |-> name, t |-> t, arg |-> arg,
                                 pc |-> [x \in Threads |-> pc'[x]], ip |-> [x \in Threads |-> ip'[x]],
@@ -192,14 +205,17 @@ TypeOK == \A t \in Threads : pc[t] \in {"run", "gate", "waiting", "resumed", "do
 \* no wake-up is lost: a thread never waits with its flag saying that it runs (no continue would ever reach it)
 NoLostWakeup == \A t \in Threads : ~(pc[t] = "waiting" /\ is[t].running)
 \* a thread reported as suspended (registered, flag cleared) is at the gate or waits: the next continue finds it
-ReportedIsSuspended == \A t \in Threads : (is[t].on /\ ~is[t].running /\ ~is[t].err) => pc[t] \in {"gate", "waiting"}
+ReportedIsSuspended == \A t \in Threads : (is[t].on /\ ~is[t].running) => pc[t] \in {"gate", "waiting"}
 \* stopping all threads leaves nobody suspended
 \* arriving from another line at an active breakpoint always suspends
 BreakpointsSuspend == missed = {}
+\* a thread reported as suspended is released by the next continue command addressed to it
+ContinueReleases == \A t \in Threads : owed[t] => pc[t] # "waiting"
 \* stopping all threads releases every suspended one: directly after the command no thread waits
 StopReleasesAll == [][(\E t \in Threads : is'[t].cmd = "Kill" /\ is[t].cmd # "Kill") => (\A t \in Threads : pc'[t] # "waiting")]_vars
 \* behaviour export for the follow mode: the history is printed when nothing can happen any more
 Export == (~ENABLED Next) => PrintT(<<"BEHAVIOUR", ToJson(hist)>>)
 \* the same for the behaviour which loses a wake-up (found variant): replayed on the real code
 ExportLost == NoLostWakeup \/ PrintT(<<"BEHAVIOUR", ToJson(hist)>>)
+ExportOwed == ContinueReleases \/ PrintT(<<"BEHAVIOUR", ToJson(hist)>>)
 =============================================================================
